@@ -19,6 +19,7 @@
 #include "tokenizer.h"
 #include "instr_parser.h"
 #include "reg_parser.h"
+#include "verif_hooks.h"
 #include <stdbool.h>
 #include <stdlib.h>
 #include <string.h>
@@ -206,6 +207,7 @@ static int check_operand_type(struct instr *instr_buffer, char *all_opd,
 static int operand_tok(struct instr *instr_buffer, char *opds, int opd_pos) {
 
   char *saved_opd = NULL;
+  AL_VERIF_IDX(1, opd_pos, NUM_OF_OPD);
   FAIL_IF(opds[0] == ',');
   // get the 1st operand
   char *all_opd = strtok_r(opds, ",", &saved_opd);
